@@ -400,6 +400,13 @@ def raw_payload(r):
     return (r['n'], r['s'], r['ql'], r['t'], r['p'], r['c'])
 
 
+def canon_jobs(jobs):
+    """conservation needs every contig with reads (and the unmapped bin) in exactly one job; how the contigs are
+    grouped into jobs and in which order the jobs are listed is scheduling, compared as the multiset of scheduled contigs
+    (an empty job is kept visible)"""
+    return sorted(x for j in jobs for x in j) + ['<empty job>' for j in jobs if not j]
+
+
 class Prop(fw.PropBase):
     ID = 'C05'
     PROPS = 'Props/C05.v'
@@ -724,7 +731,7 @@ class Prop(fw.PropBase):
                 n_traces += 1
                 if 'error' in o:
                     dis.append({'level': 'slice', 'input': cl, 'impl_error': o['error']})
-                elif o['jobs'] != self.dec_jobs(m, inv):
+                elif canon_jobs(o['jobs']) != canon_jobs(self.dec_jobs(m, inv)):
                     dis.append({'level': 'slice', 'input': cl, 'impl': o['jobs'], 'model': self.dec_jobs(m, inv)})
         # ---- end to end
         spec_bad = []
